@@ -47,8 +47,9 @@ type CMG struct {
 	Hrefs   []string `json:"hrefs"`
 }
 type CQCase struct {
-	Q   CQ        `json:"q"`
-	Doc xmlt.Node `json:"doc"`
+	Q       CQ        `json:"q"`
+	Doc     xmlt.Node `json:"doc"`
+	SrvOnly bool      `json:"srvonly"` // a conformant spelling the client never produces: server direction only
 }
 type CMCase struct {
 	M   CMG       `json:"m"`
@@ -198,6 +199,9 @@ func runCard(dir string, emit func(interface{}), conc *xmlt.Conc, mod, rem int) 
 		}
 		ev["got"] = got
 		emit(ev)
+		if cs.SrvOnly {
+			return
+		}
 		// (b) client -> wire
 		ch.body = nil
 		_, err := cl.QueryAddressBook(context.Background(), "/u/card/ab/", cConcQ(conc, cs.Q))
